@@ -591,3 +591,35 @@ Section PipelineStaticRefine.
     exists s2. unfold static_run, StaticModel.static_solve. rewrite E1. cbn [VpscModel.bind]. exact E2.
   Qed.
 End PipelineStaticRefine.
+
+(* ---- refine: the premise "static_refine returns" of pipeline_no_overlap_static_refine_only_partial reduced to
+   "every pass of refine's while loop on the trace returns with every slack >= 0" (Vpsc/StaticRefine.v: the closing
+   scan cannot throw from an all-satisfied state; running out of maxtries is a normal return).  Still _partial: the
+   pass hypothesis (Blocks::split keeps every constraint satisfied) is proved only for the mergeRight half, given that
+   findMinOutConstraint delivers a most violated out-constraint (StaticRefine.merge_right_all_sat). *)
+From Adapt Require Vpsc.StaticRefine.
+Theorem pipeline_no_overlap_static_passes_partial
+  (mklt : list Q -> nat -> nat -> bool)
+  (mklt_strict : forall pos, strict (mklt pos))
+  (mklt_total : forall pos, total_on (mklt pos) (length pos))
+  (mklt_range : forall pos a b, mklt pos a b = true -> (a < length pos)%nat /\ (b < length pos)%nat)
+  (xB yB : Q) (xB_nonneg : 0 <= xB) (yB_nonneg : 0 <= yB) rs fixed third r :
+  good_rects rs -> (Z.of_nat (length rs) <= 10000000)%Z ->
+  removeoverlaps mklt static_solve_fn xB yB rs fixed third = Some r ->
+  (forall rsl csl d s1, last_pass mklt xB yB third rsl csl d ->
+     StaticModel.static_satisfy (StaticModel.static_init (mkvars d (weights (length rs) fixed)) (mkcons csl)) = VpscModel.Ok s1 ->
+     StaticRefine.passes_ok VpscModel.MAXTRIES s1) ->
+  no_overlap xB yB (ro_rects r).
+Proof.
+  intros G Hn H HP.
+  apply (pipeline_no_overlap_static_refine_only_partial mklt mklt_strict mklt_total mklt_range xB yB xB_nonneg yB_nonneg
+           rs fixed third r G Hn H).
+  intros rsl csl d s1 LP E1 A1.
+  destruct (StaticFrame.static_satisfy_scan _ _ E1) as [_ [_ Kc]].
+  assert (Ec : VpscModel.scons (StaticModel.base s1) = mkcons csl).
+  { rewrite Kc. cbn [StaticModel.static_init StaticModel.base]. exact (proj2 (StaticFrame.init_problem _ _)). }
+  assert (A : StaticRefine.all_sat0 (StaticModel.base s1)).
+  { intros c Hc. apply A1. rewrite Ec in Hc. unfold mkcons in Hc. rewrite map_length in Hc. exact Hc. }
+  destruct (StaticRefine.static_refine_returns_given_passes s1 A (HP rsl csl d s1 LP E1)) as [s2 [E2 _]].
+  exists s2. exact E2.
+Qed.
